@@ -44,14 +44,15 @@ def fetchRow (s : Txt) (i : Nat) : Except Err (Txt × Nat) := do
   let w := if w[0]! == '"' && w[w.size - 1]! == '"' then slice w 1 (w.size - 1) else w
   pure (strip w, e + 1)
 
-/-- `_fetchTextRow(dataStr, index)`: the quote-run loop is the one-pass machine `scanText` of Quote.lean -/
-def fetchTextRow (s : Txt) (i : Nat) : Except Err (Txt × Nat) := do
+/-- `_fetchTextRow(dataStr, index, stripText=…)`: the quote-run loop is the one-pass machine `scanText` of Quote.lean;
+`stripText=False` (fix A31: the tier-name row of `_parseShortTextgrid`) keeps the text between the quotes verbatim -/
+def fetchTextRow (s : Txt) (i : Nat) (stripText : Bool := true) : Except Err (Txt × Nat) := do
   -- endIndex = startIndex + 1; then the loop
   let n ← scanText none 0 (s.toList.drop (i + 1))
   let e := i + 1 + n
   let w := slice s i e
   let w := if w.size ≥ 2 then slice w 1 (w.size - 1) else (if w.size = 1 then #[] else w)   -- word[1:-1]
-  let w := (unescapeL (stripList w.toList)).toArray                                            -- .strip().replace('""', '"')
+  let w := (unescapeL (if stripText then stripList w.toList else w.toList)).toArray            -- [.strip()].replace('""', '"')
   let nl ← index s (lit "\n") e
   pure (w, nl + 1)
 
@@ -97,7 +98,7 @@ def shortTuples (data : Txt) : List (Nat × Nat × Bool) :=
 /-- the body of the tier loop of `_parseShortTextgrid` on `tierData = data[blockStartI:blockEndI]` -/
 def readBlock (td : Txt) (isI : Bool) : Except Err RawTier := do
   let (_, metaI) ← fetchRow td 0
-  let (name, i1) ← fetchTextRow td metaI
+  let (name, i1) ← fetchTextRow td metaI false
   let (st, i2) ← fetchRow td i1
   let (en, i3) ← fetchRow td i2
   let (_, i4) ← fetchRow td i3
